@@ -111,6 +111,8 @@ IMPL = {
 
 
 def model_call(c):
+    if c["op"] == "seq":
+        return [model_call(_step_case(st)) for st in c["args"][0]]
     if c["op"].startswith("cli_"):
         return _model_call_cli(c)
     if c["op"] == "to_seed_default":
@@ -295,10 +297,15 @@ def gen_cases(rng, tier):
         out.append(case("seed-random", "to_seed", m, p))
     out.extend(gen_cli_cases(rng, tier))
     out.extend(gen_combo_cases(rng, tier))
+    out.extend(gen_seq_cases(rng, tier))
     return out
 
 
 def shrink(c):
+    if c["op"] == "seq":
+        # never drop a step: the worker that shrinks has already seen the whole sequence, so a shorter one could
+        # keep failing there and yet pass in the fresh process of a replay
+        return
     a = c["args"][0]
     if isinstance(a, bytes):
         if len(a) > 0 and any(a):
@@ -329,6 +336,8 @@ def _try(f, *a):
 def prop_oracle(c):
     m = _impl()
     op = c["op"]
+    if op == "seq":
+        return _seq_prop_oracle(c)
     if op.startswith("cli_"):
         return _cli_prop_oracle(c)
     if op == "load_wordlist":
@@ -575,6 +584,9 @@ def ref_master_xprv(seed: bytes, network, print_) -> bytes:
 
 
 def canon(c, v):
+    if c["op"] == "seq" and isinstance(v, (list, tuple)) and len(v) == len(c["args"][0]):
+        return [[r[0], canon(_step_case(st), r[1])] if (isinstance(r, (list, tuple)) and len(r) == 2 and r[0] == "ok") else r
+                for st, r in zip(c["args"][0], v)]
     # the model answers cli_to_master_key with the SEED; the expected key is derived from it here
     op, a = c["op"], c["args"]
     if op == "cli_combo" and a[0] == "to-master-key":
@@ -901,6 +913,171 @@ def gen_combo_cases(rng, tier):
                     ws = phrases[L].split()
                     mk("cli-combo-to-entropy-refused", mode, " ".join(ws[:-1] + ["zzzz"]), None, f2 + extra)
     return out
+
+
+# ----------------------------------------------------------------------------------------------
+# SEQUENCES of calls in one worker: seq(steps), steps = [[op, arg, ...], ...] -> [["ok", value] | ["err", None], ...]
+# Every answer must be the one the model gives for that call ALONE (model_call returns the list of model calls):
+# nothing remembered from an earlier call (a memo table keyed by a fingerprint of the arguments, a reused buffer, a
+# sticky option) may leak into a later one.  The generator builds PAIRS that a sloppy key identifies:
+# argument-boundary shifts (a+b, c)/(a, b+c), texts equal only after normalising / case-folding / stripping /
+# collapsing blanks, swapped arguments, the salt prefix inside the passphrase, equal integer value with different
+# length, equal prefix / suffix, equal hash() / crc32 / adler32, same sentence with another network / format.
+# ----------------------------------------------------------------------------------------------
+def _seq(steps):
+    out = []
+    for st in steps:
+        try:
+            out.append(["ok", IMPL[st[0]](*st[1:])])
+        except Exception:  # noqa
+            out.append(["err", None])
+    return out
+
+
+IMPL["seq"] = _seq
+NO_REUSELIST_OPS = {"seq"}
+
+
+def _step_case(st):
+    return {"cls": "seq-step", "op": st[0], "args": list(st[1:]), "strict": False}
+
+
+def _extend_entropy(rng, e1: bytes, L2: int) -> bytes:
+    """an entropy of L2 > len(e1) bytes whose mnemonic BEGINS with the whole mnemonic of e1 (the bits after e1 start
+    with e1's checksum bits; the rest is free)"""
+    bits = bin(int.from_bytes(e1, "big"))[2:].zfill(len(e1) * 8)
+    bits += "".join(format(b, "08b") for b in hashlib.sha256(e1).digest())[: len(e1) // 4]
+    bits += "".join(rng.choice("01") for _ in range(L2 * 8 - len(bits)))
+    e2 = int(bits, 2).to_bytes(L2, "big")
+    assert ref_mnemonic(e2)[: len(e1) * 3 // 4] == ref_mnemonic(e1)
+    return e2
+
+
+def _checksum_collision(rng, fn, L=16, tries=400000):
+    """two different L-byte strings with the same fn() (birthday search; None if none was found)"""
+    seen = {}
+    for _ in range(tries):
+        x = rng.randbytes(L)
+        k = fn(x)
+        if k in seen and seen[k] != x:
+            return seen[k], x
+        seen[k] = x
+    return None
+
+
+def gen_seq_cases(rng, tier):
+    import zlib
+    T = tier == "thorough"
+    out = []
+
+    def both_orders(cls, a, b):
+        out.append(case(cls, "seq", [a, b]))
+        out.append(case(cls, "seq", [b, a]))
+        out.append(case(cls + "-repeat", "seq", [a, b, a]))
+
+    # (1) to_seed: words moved between the mnemonic and the passphrase, both sentences VALID mnemonics
+    for (L1, L2) in ([(16, 20), (16, 32), (20, 24), (24, 28), (28, 32), (16, 24)] if T else [(16, 20), (20, 24), (16, 32)]):
+        for _ in range(3 if T else 1):
+            e1 = rng.randbytes(L1)
+            m1 = ref_mnemonic(e1)
+            m2 = ref_mnemonic(_extend_entropy(rng, e1, L2))
+            tail = " " + " ".join(m2[len(m1):])
+            both_orders("seq-seed-boundary-valid", ["to_seed", " ".join(m1), tail], ["to_seed", " ".join(m2), ""])
+            out.append(case("seq-seed-boundary-valid", "seq", [["to_seed", " ".join(m1), tail], ["to_seed_default", " ".join(m2)]]))
+            both_orders("seq-cli-seed-boundary", ["cli_to_seed", " ".join(m1) + "\n", tail, ""],
+                        ["cli_to_seed", " ".join(m2) + "\n", "", ""])
+            # the boundary inside a word / before the blank
+            k = rng.randrange(1, len(tail))
+            both_orders("seq-seed-boundary", ["to_seed", " ".join(m1) + tail[:k], tail[k:]], ["to_seed", " ".join(m1), tail])
+    # (2) to_seed: arbitrary texts, boundary shifts and pairs a sloppy key identifies
+    m = _phrase(rng.randbytes(16))
+    pairs = [
+        (("ab", "c"), ("a", "bc")), (("", "abc"), ("abc", "")), ((m, "TREZOR"), (m + "TREZOR", "")),
+        ((m, "TREZOR"), (m + "T", "REZOR")), ((m, "X"), (m, "mnemonicX")), ((m, ""), (m, "mnemonic")),
+        ((m, "mnemonicmnemonic"), (m, "mnemonic")), ((m, "TREZOR"), (m, "trezor")), ((m, "TREZOR"), (m, " TREZOR")),
+        ((m, "TREZOR"), (m, "TREZOR ")), ((m, "a b"), (m, "a  b")), ((m, "a b"), (m, "ab")), ((m, "x"), (m + " ", "x")),
+        ((m, "x"), (" " + m, "x")), ((m, "x"), (m.replace(" ", "  ", 1), "x")), ((m, "x"), (m.upper(), "x")),
+        ((m, "pass"), ("pass", m)), ((m, m), (m, "")), ((m, "\u00e9"), (m, "e")), ((m, "\u212a"), (m, "k")),
+        ((m, "\u212a"), (m, "K")), ((m, "\u017f"), (m, "s")), ((m, "\uff50"), (m, "P")), ((m, "\u00df"), (m, "ss")),
+        ((m, "\u00e1"), (m, "a")), ((m, "\u00e9"), (m, "e\u0301")), ((m, "\uff50\uff41\uff53\uff53"), (m, "pass")),
+        ((m, "\u212b"), (m, "\u00c5")), ((m, "a\u0323\u0307"), (m, "a\u0307\u0323")), ((m, "\u00e9"), (m, "\u00c9")),
+        ((m, "x\x00"), (m, "x")), ((m, "0"), (m, "")), ((m, "None"), (m, "")),
+    ]
+    for (a, b) in (pairs if T else pairs[:6] + rng.sample(pairs[6:], 10)):
+        both_orders("seq-seed-sloppy-key", ["to_seed", a[0], a[1]], ["to_seed", b[0], b[1]])
+    out.append(case("seq-seed-default", "seq", [["to_seed", m, "x"], ["to_seed_default", m], ["to_seed", m, ""]]))
+    # (3) command line: same sentence and passphrase, another network / -P / mode; passphrase vs. mnemonic text
+    for _ in range(3 if T else 1):
+        m = _phrase(rng.randbytes(rng.choice(ENT_LENGTHS))) + "\n"
+        pp = rng.choice(CLI_PASSPHRASES)
+        both_orders("seq-cli-master-key-network", ["cli_to_master_key", m, pp, "mainnet", False], ["cli_to_master_key", m, pp, "testnet", False])
+        both_orders("seq-cli-master-key-network", ["cli_to_master_key", m, pp, None, True], ["cli_to_master_key", m, pp, "regtest", False])
+        both_orders("seq-cli-seed-then-key", ["cli_to_seed", m, pp, None], ["cli_to_master_key", m, pp, None, False])
+        both_orders("seq-cli-seed-format", ["cli_to_seed", m, pp, ""], ["cli_to_seed", m, pp, "bin"])
+        both_orders("seq-cli-seed-passphrase", ["cli_to_seed", m, " " + pp, None], ["cli_to_seed", m, pp, None])
+        both_orders("seq-cli-lib", ["cli_to_seed", m, pp, ""], ["to_seed", _sanitised(m), pp + " "])
+    # (4) calculate_mnemonic_phrase / to_entropy: pairs with equal fingerprints
+    for _ in range(4 if T else 1):
+        e = rng.randbytes(16)
+        fp = [("int-value", bytes(4) + e), ("int-value", bytes(16) + e), ("prefix", e + rng.randbytes(16)),
+              ("prefix", e + rng.randbytes(4)), ("suffix", rng.randbytes(16) + e), ("prefix", e[:15] + bytes([e[15] ^ 1])),
+              ("suffix", bytes([e[0] ^ 0x80]) + e[1:]), ("invalid-prefix", e + b"\0"), ("int-value-invalid", b"\0" + e),
+              ("reversed", e[::-1]), ("hash", (int.from_bytes(b"\x7f" + e[1:], "big") + (2 ** 61 - 1)).to_bytes(16, "big"))]
+        for name, e2 in fp:
+            e1 = b"\x7f" + e[1:] if name == "hash" else e
+            both_orders("seq-entropy-" + name, ["calculate_mnemonic_phrase", e1], ["calculate_mnemonic_phrase", e2])
+        both_orders("seq-cli-entropy-prefix", ["cli_from_entropy", e, "", "stdin"], ["cli_from_entropy", e + rng.randbytes(16), "", "stdin"])
+    for name, fn in (("crc32", zlib.crc32), ("adler32", zlib.adler32), ("sum", lambda x: sum(x)),
+                     ("xor", lambda x: __import__("functools").reduce(lambda a, b: a ^ b, x))):
+        pr = _checksum_collision(rng, fn)
+        if pr:
+            both_orders("seq-entropy-" + name, ["calculate_mnemonic_phrase", pr[0]], ["calculate_mnemonic_phrase", pr[1]])
+            both_orders("seq-sentence-" + name, ["to_entropy", _phrase(pr[0])], ["to_entropy", _phrase(pr[1])])
+    W = _ref_words()
+    for L in (ENT_LENGTHS if T else (16, 32)):
+        ws = ref_mnemonic(rng.randbytes(L))
+        good = " ".join(ws)
+        variants = [("last-word", " ".join(ws[:-1] + [W[(W.index(ws[-1]) + 1) % 2048]])), ("case", good.upper()),
+                    ("case", good.title()), ("one-short", " ".join(ws[:-1])), ("first-word", " ".join([W[(W.index(ws[0]) + 1) % 2048]] + ws[1:])),
+                    ("swapped", " ".join([ws[1], ws[0]] + ws[2:])), ("glued", good.replace(" ", "", 1)),
+                    ("blanks", good.replace(" ", "  ") + " "), ("nfkd", good.replace("a", "\uff41", 1))]
+        for name, other in variants:
+            both_orders("seq-sentence-" + name, ["to_entropy", good], ["to_entropy", other])
+        both_orders("seq-cli-sentence", ["cli_to_entropy", good, "", "stdin"], ["cli_to_entropy", variants[0][1], "", "stdin"])
+    return out
+
+
+def _ref_step(st):
+    """reference answer (independent of the implementation) of one step: ["ok", v] / ["err", None]"""
+    op, a = st[0], st[1:]
+    ok = lambda v: ["ok", v] if v is not None else ["err", None]
+    if op in ("calculate_mnemonic_phrase", "cli_from_entropy"):
+        w = ref_mnemonic(a[0])
+        return ok(" ".join(w) if w is not None else None)
+    if op in ("to_entropy", "cli_to_entropy"):
+        return ok(ref_decode(a[0].split()))
+    if op == "to_seed":
+        return ok(ref_seed(a[0], a[1]))
+    if op == "to_seed_default":
+        return ok(ref_seed(a[0], ""))
+    if op == "cli_to_seed":
+        return ok(ref_seed(_sanitised(a[0]), a[1]))
+    if op == "cli_to_master_key":
+        return ok(ref_master_xprv(ref_seed(_sanitised(a[0]), a[1]), a[2], a[3]))
+    raise ValueError("c10 harness: no reference for step %r" % op)
+
+
+def _seq_prop_oracle(c):
+    steps = c["args"][0]
+    got = _seq(steps)
+    for i, (st, g) in enumerate(zip(steps, got)):
+        want = _ref_step(st)
+        g = [g[0], bytes(g[1]) if isinstance(g[1], (bytes, bytearray)) else g[1]]
+        if g != want:
+            return "call %d of %d in one process, %s(%s), answered %s; on its own it must answer %s (BIP39 reference)%s" % (
+                i + 1, len(steps), st[0], ", ".join(short(x, 60) for x in st[1:]), short(g, 150), short(want, 150),
+                "; earlier calls: " + "; ".join("%s(%s)" % (s[0], ", ".join(short(x, 40) for x in s[1:])) for s in steps[:i]) if i else "")
+    return None
 
 
 # ----------------------------------------------------------------------------------------------
